@@ -2,10 +2,34 @@ package index
 
 import (
 	"encoding/binary"
+	"errors"
 	"io"
 )
 
+// Limits of the storage format: the number of keys and the length of a value are written
+// as 16 bit fields, the length of a key as an 8 bit field.
+const (
+	MaxMetadataKeys        = 1<<16 - 1
+	MaxMetadataKeyLength   = 1<<8 - 1
+	MaxMetadataValueLength = 1<<16 - 1
+)
+
+var MetadataTooLargeErr error = errors.New("Metadata does not fit the storage format (at most 65535 keys, keys up to 255 bytes, values up to 65535 bytes)")
+
 type Metadata map[string]string
+
+// Metadata that exceeds the limits of the storage format cannot be written without corrupting the stream
+func (this Metadata) Validate() error {
+	if len(this) > MaxMetadataKeys {
+		return MetadataTooLargeErr
+	}
+	for k, v := range this {
+		if len(k) > MaxMetadataKeyLength || len(v) > MaxMetadataValueLength {
+			return MetadataTooLargeErr
+		}
+	}
+	return nil
+}
 
 func (this Metadata) bytesSize() uint64 {
 	var n int = 0
